@@ -59,6 +59,7 @@ func VerifHarness_C20_Native() {
 		tally[fmt.Sprintf("%s/%d", strings.ToLower(method), resp.StatusCode)]++
 	}
 	do("GET", "")
+	do("POST", strings.Repeat(" ", 5<<20)+"{}") // an oversized body is answered like any other undecodable one, and counted
 	do("POST", "not json")
 	do("POST", string(unsat))
 	do("PUT", string(good))
